@@ -913,7 +913,7 @@ func checkC17(w *World, r *Report) {
 	// provenance in types/positiontype.go
 	np := 0
 	for _, fn := range w.pkgFuncs("types") {
-		if !strings.HasSuffix(w.Fset.Position(fn.Pos()).Filename, "positiontype.go") {
+		if !isPositionFn(fn) {
 			continue
 		}
 		for _, b := range fn.Blocks {
@@ -1486,7 +1486,7 @@ func checkC19(w *World, r *Report) {
 	})
 	nc := 0
 	for _, fn := range a.closure {
-		if fnPkgPath(fn) == modPath+"/lisperror" || fnPkgPath(fn) == modPath+"/types" && strings.HasSuffix(w.Fset.Position(fn.Pos()).Filename, "positiontype.go") {
+		if fnPkgPath(fn) == modPath+"/lisperror" || fnPkgPath(fn) == modPath+"/types" && isPositionFn(fn) {
 			continue // the position machinery itself
 		}
 		for _, b := range fn.Blocks {
@@ -4325,6 +4325,32 @@ func blockReachesWithin(a, b *ssa.BasicBlock, blocks map[*ssa.BasicBlock]bool, h
 			}
 			seen[s] = true
 			work = append(work, s)
+		}
+	}
+	return false
+}
+
+// isPositionFn: part of the position machinery of package types: a method of Position, or a function that hands
+// out a Position (wherever in the package it is written).
+func isPositionFn(fn *ssa.Function) bool {
+	isPos := func(t types.Type) bool {
+		if p, ok := t.(*types.Pointer); ok {
+			t = p.Elem()
+		}
+		nt, ok := t.(*types.Named)
+		return ok && nt.Obj().Name() == "Position" && nt.Obj().Pkg() != nil && nt.Obj().Pkg().Path() == modPath+"/types"
+	}
+	root := fn
+	for root.Parent() != nil {
+		root = root.Parent()
+	}
+	if recv := root.Signature.Recv(); recv != nil && isPos(recv.Type()) {
+		return true
+	}
+	res := root.Signature.Results()
+	for i := 0; i < res.Len(); i++ {
+		if isPos(res.At(i).Type()) {
+			return true
 		}
 	}
 	return false
